@@ -51,6 +51,9 @@ def run(ctx):
     ctx.rule('R16j', 'a spec given a legacy args parser object keeps its body delta (is_math_mode) unless the '
                      'legacy parser requested an inner state: same body mode as the string / std_environment '
                      'spellings', 1)
+    ctx.rule('R16m', 'the default legacy call (tri-state options such as strict_braces left at None, '
+                     'tolerant_parsing off) returns the documented empty result on every path that swallowed '
+                     'the parser\'s error: it fails exactly when the parser fails', 1)
     ctx.rule('R16i', 'legacy methods never test a numeric option (read_max_nodes, ...) by truthiness: 0 is a '
                      'value distinct from the None default', 1)
     ctx.rule('R16h', 'get_latex_nodes(stop_upon_closing_brace=...): the closing delimiter registered in '
@@ -348,6 +351,62 @@ def run(ctx):
     ctx.holds('R16i', w, None, 'no numeric option of a legacy method is tested by truthiness',
               construct='numeric option scan', trivial=True)
 
+    # ---- R16m: the default call (tri-state options left at None, strict parsing) reports the
+    # parser's failure: on every path through an except handler that swallows the parse error
+    # the returned node is None (the documented empty result), not a made-up node
+    n_m = 0
+    for shim, fnode in sorted(w.functions.items()):
+        if not shim.startswith('_pyltxenc2_LatexWalker_') or '.' in shim:
+            continue
+        hb = [h for t_ in iter_own(fnode) if isinstance(t_, ast.Try) for h in t_.handlers
+              if h.type is not None and 'ParseError' in unparse(h.type)]
+        hstmts = set()
+        for h in hb:
+            for s_ in h.body:
+                for x in ast.walk(s_):
+                    if isinstance(x, ast.Assign):
+                        hstmts.add(x)
+        if not hstmts:
+            continue
+        a_ = fnode.args
+        defaults = dict(zip([p.arg for p in a_.args][len(a_.args) - len(a_.defaults):], a_.defaults))
+        tri = sorted(p for p, d in defaults.items() if isinstance(d, ast.Constant) and d.value is None
+                     and p != 'parsing_state')
+        if not tri:
+            continue
+        env0 = dict((p, ast.Constant(value=None)) for p in tri)
+        try:
+            cases = symex.Walker(want_returns=True, trace=True, stmt_sink=lambda s_: s_ in hstmts).run(fnode, env0)
+        except symex.TooManyPaths:
+            ctx.unknown('R16m', w, fnode, 'too many paths', construct=shim + ': default call')
+            continue
+        assume = {'self.tolerant_parsing': False}
+        bad = None
+        nfail = 0
+        for cs in cases:
+            if cs.kind != 'return' or not any(t_[0] in hstmts for t_ in cs.env.get('#trace', ())):
+                continue
+            if any(_eval3(t_, assume) is (not pol) for t_, pol in cs.conds):
+                continue
+            nfail += 1
+            v = cs.sub
+            first = v.elts[0] if isinstance(v, ast.Tuple) and v.elts else v
+            if not (isinstance(first, ast.Constant) and first.value is None):
+                bad = (cs, first)
+                break
+        n_m += 1
+        ctx.decide('R16m', bad is None and nfail > 0, w, (bad[0].node if bad else fnode),
+                   '%s(%s): with the option(s) left at None and tolerant_parsing off, every path on which the '
+                   'parse error was swallowed (%d) returns a None node' % (shim, ', '.join(tri), nfail),
+                   ('%s: with %s left at its default None and tolerant_parsing off, the path [%s] swallows the '
+                    'parse error and still returns the node `%s`: the legacy call succeeds where the parser '
+                    'failed' % (shim, ', '.join(tri), bad[0].cond_src()[:160], short(bad[1])))
+                   if bad else 'no failing path found for the default call',
+                   construct=shim + ': default call on parser failure')
+    if n_m == 0:
+        ctx.unknown('R16m', w, None, 'no legacy method with a swallowing handler and a tri-state option found',
+                    construct='default call on parser failure')
+
     # ---- R16h: the closing delimiter compared by the stop condition == the one registered
     cmpvar = None
     if stc:
@@ -543,6 +602,36 @@ def run(ctx):
         'which parser each one builds, that every option is live and forwarded, that stop options '
         'agree between the stop predicate and the required-stop flag, the result triple, the spec '
         'adapters and the legacy attribute names.  Tree equality on all inputs is not decided.')
+
+
+def _eval3(e, assume):
+    """three-valued evaluation of a substituted test: True / False / None (unknown)"""
+    if isinstance(e, ast.Constant):
+        return bool(e.value)
+    k = unparse(e)
+    if k in assume:
+        return assume[k]
+    if isinstance(e, ast.UnaryOp) and isinstance(e.op, ast.Not):
+        v = _eval3(e.operand, assume)
+        return None if v is None else (not v)
+    if isinstance(e, ast.BoolOp):
+        vs = [_eval3(x, assume) for x in e.values]
+        if isinstance(e.op, ast.And):
+            return False if False in vs else (None if None in vs else True)
+        return True if True in vs else (None if None in vs else False)
+    if isinstance(e, ast.Compare) and len(e.ops) == 1 and isinstance(e.left, ast.Constant) and \
+            isinstance(e.comparators[0], ast.Constant):
+        a, b = e.left.value, e.comparators[0].value
+        op = e.ops[0]
+        if isinstance(op, ast.Is):
+            return a is b
+        if isinstance(op, ast.IsNot):
+            return a is not b
+        if isinstance(op, ast.Eq):
+            return a == b
+        if isinstance(op, ast.NotEq):
+            return a != b
+    return None
 
 
 def _var_of(f, call):
